@@ -189,3 +189,62 @@ func IsStop(r interface{}) (string, bool) {
 	s, ok := r.(stopReplay)
 	return s.why, ok
 }
+
+// FloatSyntax classifies s as an argument of strconv.ParseFloat(s, 64). It is the
+// engine's model of ParseFloat's *syntax* check (the conversion itself is trusted
+// strconv): 1 = well-formed decimal literal, 0 = syntax error, 2 = not modelled
+// (hexadecimal, inf/nan, underscores). bigExp: the exponent has three or more
+// digits, so a range error is possible.
+func FloatSyntax(s string) (class int, bigExp bool) {
+	i := 0
+	if i < len(s) && (s[i] == '+' || s[i] == '-') {
+		i++
+	}
+	digits := 0
+	sawDot := false
+	for ; i < len(s); i++ {
+		c := s[i]
+		if c >= '0' && c <= '9' {
+			digits++
+			continue
+		}
+		if c == '.' && !sawDot {
+			sawDot = true
+			continue
+		}
+		break
+	}
+	if i < len(s) {
+		c := s[i]
+		if c == '_' || c == 'x' || c == 'X' || c == 'p' || c == 'P' || c == 'i' || c == 'I' || c == 'n' || c == 'N' {
+			return 2, false
+		}
+	}
+	if digits == 0 {
+		return 0, false
+	}
+	if i < len(s) && (s[i] == 'e' || s[i] == 'E') {
+		i++
+		if i >= len(s) {
+			return 0, false
+		}
+		if s[i] == '+' || s[i] == '-' {
+			i++
+		}
+		ed := 0
+		for ; i < len(s) && s[i] >= '0' && s[i] <= '9'; i++ {
+			ed++
+		}
+		if ed == 0 {
+			return 0, false
+		}
+		if i < len(s) && s[i] == '_' {
+			return 2, false
+		}
+		bigExp = ed >= 3
+	}
+	if i != len(s) {
+		return 0, false
+	}
+	return 1, bigExp
+}
